@@ -192,6 +192,21 @@ func (u *c07U) classOf(ds []attrDiff) string {
 	return ""
 }
 
+// fail reports a violation of C07. C07 quantifies over mutation sequences "as produced by nested
+// contract calls, asset transactions, box transactions and miner-side discards": a difference
+// that needed an API-level call no transaction path makes (class "/wild") is outside the
+// statement. It is counted as a probe, never reported, and ends the run.
+func (u *c07U) fail(sig, class, format string, args ...interface{}) {
+	if class != "" {
+		u.c.Probe("outside_quantifier/" + strings.TrimPrefix(sig, "C07/"))
+		if u.run != nil && u.run.dead == "" {
+			u.run.dead = "difference after an API-level call that no transaction path makes"
+		}
+		return
+	}
+	u.c.Fail(sig, format, args...)
+}
+
 func (u *c07U) classAny() string {
 	if u.run != nil && (u.run.all || len(u.run.taint) > 0) {
 		return "/wild"
@@ -210,7 +225,7 @@ func (u *c07U) checkBase(where string, ops []*jop, upto int, results []string) b
 	gating, _ := splitGating(diffAccounts(u.base0, now))
 	if len(gating) > 0 {
 		u.polluted = true
-		u.c.Fail("C07/base-polluted/"+sigAttr(gating)+u.classOf(gating), "a FRESH manager at the base block reads different state after another manager's uncommitted operations (%s):%s\nvariant=%s ops:%s",
+		u.fail("C07/base-polluted/"+sigAttr(gating), u.classOf(gating), "a FRESH manager at the base block reads different state after another manager's uncommitted operations (%s):%s\nvariant=%s ops:%s",
 			where, diffStrings(gating, 12), u.c.Var, opsString(ops, upto, results))
 	}
 	return u.polluted
@@ -731,6 +746,9 @@ func c07Unit(c *Ctx) {
 	kinds := map[string]bool{}
 	body := func() {
 		for i, o := range ops {
+			if run.dead != "" {
+				return
+			}
 			switch o.K {
 			case "snapshot":
 				rec := snapRec{opIdx: i}
@@ -758,7 +776,7 @@ func c07Unit(c *Ctx) {
 					run.am.RevertToSnapshot(rec.id)
 				}()
 				if pan != nil {
-					c.Fail("C07/revert/panic/"+sanitizeErr(pan)+u.classAny(), "RevertToSnapshot(%d) (snapshot taken at op %d, %d live snapshots) failed: %v\nvariant=%s ops:%s",
+					u.fail("C07/revert/panic/"+sanitizeErr(pan), u.classAny(), "RevertToSnapshot(%d) (snapshot taken at op %d, %d live snapshots) failed: %v\nvariant=%s ops:%s",
 						rec.id, rec.opIdx, len(run.stack), pan, c.Var, opsString(ops, i, results))
 					run.dead = "revert panic"
 					return
@@ -792,7 +810,7 @@ func c07Unit(c *Ctx) {
 					c.Probe("events_list_not_restored_by_revert")
 				}
 				if len(gating) > 0 {
-					c.Fail("C07/revert/"+sigAttr(gating)+u.classOf(gating), "state after RevertToSnapshot(%d) differs from the state when the snapshot was taken (op %d):%s\nvariant=%s twin=%v ops:%s",
+					u.fail("C07/revert/"+sigAttr(gating), u.classOf(gating), "state after RevertToSnapshot(%d) differs from the state when the snapshot was taken (op %d):%s\nvariant=%s twin=%v ops:%s",
 						rec.id, rec.opIdx, diffStrings(gating, 12), c.Var, twin, opsString(ops, i, results))
 				}
 				if now.LogLen != photo.LogLen {
@@ -910,11 +928,11 @@ func (u *c07U) unitRedo(run *amRun, ops []*jop, results []string) {
 		}
 	}()
 	if pan != nil {
-		c.Fail("C07/redo/panic/"+sanitizeErr(pan)+u.classAny(), "RebuildAll of the published journal panicked: %v\njournal:%s\nops:%s", pan, logsString(logs), opsString(ops, len(ops), results))
+		u.fail("C07/redo/panic/"+sanitizeErr(pan), u.classAny(), "RebuildAll of the published journal panicked: %v\njournal:%s\nops:%s", pan, logsString(logs), opsString(ops, len(ops), results))
 		return
 	}
 	if rerr != nil {
-		c.Fail("C07/redo/error/"+sanitizeErr(rerr)+u.classAny(), "RebuildAll of the published journal failed: %v\njournal:%s\nops:%s", rerr, logsString(logs), opsString(ops, len(ops), results))
+		u.fail("C07/redo/error/"+sanitizeErr(rerr), u.classAny(), "RebuildAll of the published journal failed: %v\njournal:%s\nops:%s", rerr, logsString(logs), opsString(ops, len(ops), results))
 		return
 	}
 	c.Fault("redo")
@@ -943,7 +961,7 @@ func (u *c07U) unitRedo(run *amRun, ops []*jop, results []string) {
 	c.State(hashDump(want))
 	gating, _ := splitGating(diffAccounts(want, got))
 	if len(gating) > 0 {
-		c.Fail("C07/redo/"+sigAttr(gating)+u.classOf(gating), "saved state rebuilt from the published journal differs from the saved executed state:%s\nvariant=%s journal:%s\nops:%s",
+		u.fail("C07/redo/"+sigAttr(gating), u.classOf(gating), "saved state rebuilt from the published journal differs from the saved executed state:%s\nvariant=%s journal:%s\nops:%s",
 			diffStrings(gating, 12), c.Var, logsString(logs), opsString(ops, len(ops), results))
 	} else if vrA != vrB {
 		c.Fail("C07/redo/version-root", "version root after RebuildAll+Finalise is %x, the executed block's is %x\njournal:%s\nops:%s", vrB, vrA, logsString(logs), opsString(ops, len(ops), results))
